@@ -28,6 +28,11 @@ type Config struct {
 	// Icept: the tunnel-opening call passes through a client stream interceptor that adds a
 	// metadata key (as grpc.WithChainStreamInterceptor / grpchan.InterceptClientConn would)
 	Icept bool `json:"icept,omitempty"`
+	// Nested: the RPCs of the scenario run over an INNER forward tunnel that is opened through the (outer)
+	// tunnel of the scenario: the outer tunnel's server serves the tunnel service of an inner handler, the
+	// inner channel is started over the outer channel with NestedMD as its opening metadata
+	Nested   bool                `json:"nested,omitempty"`
+	NestedMD map[string][]string `json:"nestedMD,omitempty"`
 	// KeepSending: the scripted applications go on sending after a send failed (illegal
 	// applications, for the shape-enforcement scenarios).
 	KeepSending bool `json:"keepSending,omitempty"`
